@@ -35,13 +35,20 @@ def model_case(draw, model):
     return dict(system=sysd, rows=rows, W=W, entry=draw(st.sampled_from(["function", "estimator"])),
                 accuracy=draw(st.sampled_from(["default", "high"])),
                 # how many targets are stacked into one problem: a performance setting only (Poisson / gaussian)
-                batch_size=(draw(st.sampled_from([None, None, 2, 3, "full"])) if model == "poisson" else None))
+                batch_size=(draw(st.sampled_from([None, None, 2, 3, "full"])) if model == "poisson" else None),
+                int_targets=(draw(st.integers(0, 4)) == 0))
 
 
 def _targets(case):
     """target rows; entries below 1e-300 are exact zeros"""
     B = np.array([r["b"] for r in case["rows"]], dtype=float)
+    if case.get("int_targets"):
+        B = np.round(B)                     # photon counts: whole numbers, handed over as an integer-typed array (see _arg)
     return np.where(np.abs(B) < 1e-300, 0.0, B)
+
+
+def _arg(B, case):
+    return B.astype(np.int64) if case.get("int_targets") else B
 
 
 def run_model(sv, B, W, model, entry, **opt):
@@ -114,10 +121,10 @@ def body_poisson(case):
     W = case["W"]
     bs = case.get("batch_size")
     with calling(f"poisson fit (batch_size={bs})"):
-        X, Bp = run_model(sv, B, W, "poisson", case["entry"], **({} if bs is None else dict(batch_size=bs)))
+        X, Bp = run_model(sv, _arg(B, case), W, "poisson", case["entry"], **({} if bs is None else dict(batch_size=bs)))
     common_checks(sv, B, X, Bp, "poisson")
     w = np.ones(sv.m) if W is None else np.asarray(W, dtype=float)
-    labs = sv.labels() + ["W" if W is not None else "noW", f"entry:{case['entry']}", f"batch:{bs}"]
+    labs = sv.labels() + ["W" if W is not None else "noW", f"entry:{case['entry']}", f"batch:{bs}"] + (["int-typed-targets"] if case.get("int_targets") else [])
     for i, (r, b) in enumerate(zip(case["rows"], B)):
         xc = np.clip(X[i], sv.lb, np.where(np.isfinite(sv.ub), sv.ub, np.inf))
         f_code = poisson_nll(sv, xc, b, w)
@@ -184,7 +191,7 @@ def body_excitation(case):
     sv = Sys(case["system"])
     B = _targets(case)
     with calling("excitation fit"):
-        X, Bp = run_model(sv, B, None, "excitation", case["entry"])
+        X, Bp = run_model(sv, _arg(B, case), None, "excitation", case["entry"])
     # only the default solver (SCS bisection): the statement of C07 does not promise a solver pass-through for this model, and
     # cvxpy's bisection with CLARABEL aborts with "Max iters hit during bisection" on well-posed instances (see DESIGN.md section 8)
     check(X.shape == (B.shape[0], sv.n) and Bp.shape == B.shape, "excitation:shape", f"X {X.shape} B_pred {Bp.shape}")
@@ -195,7 +202,7 @@ def body_excitation(case):
     rng = np.where(np.isfinite(sv.ub), sv.ub - sv.lb, NOMINAL_RANGE)
     slack = 2e-2 * float(np.max(rng))
     etol = 2.5e-2   # excitation units (de/dq <= 1: the 2e-2 capture accuracy of C04)
-    labs = sv.labels() + [f"entry:{case['entry']}"]
+    labs = sv.labels() + [f"entry:{case['entry']}"] + (["int-typed-targets"] if case.get("int_targets") else [])
     for i, (r, b) in enumerate(zip(case["rows"], B)):
         d, _ = lp_dist(sv.Ap, sv.basep, sv.lb, sv.ub, b)
         cls = "in-gamut" if d <= 1e-9 * sv.extent else "out-of-gamut"
